@@ -146,6 +146,49 @@ def apply_dag_fault(rng, spec, kind, cfg):
     return {"kind": kind}
 
 
+def irrelevant_options(rng):
+    """build options that must not influence outcomes, reports or the exit code"""
+    kw = {}
+    if rng.random() < 0.6:
+        for k, vals in (("show_traceback", [True, False]), ("show_locals", [True, False]), ("verbose", [0, 1, 2]),
+                        ("capture", ["fd", "sys", "no", "tee-sys"]), ("show_errors_immediately", [True, False]),
+                        ("editor_url_scheme", ["file", "no_link", "vscode", "pycharm"]), ("n_entries_in_table", [1, 15, 1000]),
+                        ("sort_table", [True, False]), ("show_capture", ["no", "stdout", "stderr", "all"])):
+            if rng.random() < 0.35:
+                kw[k] = rng.choice(vals)
+    return kw
+
+
+def gen_prog_case(rng):
+    """programmatic-tasks stream: the task functions of a one-module project are handed to build(tasks=[…]) as objects — once each,
+    with one of them twice, or next to `paths` that collect the same functions again"""
+    spec = engine.gen_spec(rng, nt=(2, 5), after_p=0.0, nomods=(1, 1), behs=("ok", "ok", "ok", "late", "early"), prodless_p=0.1,
+                           styles=("default", "annotated"))
+    names = [project.tname(t["id"]) for t in spec["tasks"]]
+    mode = rng.choice(["once", "once", "twice", "paths_and_tasks", "paths_other"])
+    faults = [{"kind": t["beh"], "task": t["id"], "phase": "execute"} for t in spec["tasks"] if t["beh"] != "ok"]
+    prog = {"names": list(names), "with_paths": False, "module": "prog_m0"}
+    if mode == "twice":
+        prog["names"].insert(rng.randrange(len(names) + 1), rng.choice(names))
+        faults.append({"kind": "duplicate_task", "phase": "collect"})
+    elif mode == "paths_and_tasks":
+        # the module is also collected through `paths`: every function passed programmatically is collected a second time
+        prog = {"names": rng.sample(names, rng.randint(1, len(names))), "with_paths": True, "module": "task_m0"}
+        faults.append({"kind": "duplicate_task", "phase": "collect"})
+    elif mode == "paths_other":
+        prog["with_paths"] = True              # `paths` given, but the module is not a task module: nothing is collected twice
+    rng.shuffle(prog["names"]) if mode == "once" else None
+    cfg = {}
+    if rng.random() < 0.2:
+        cfg["force"] = True
+    if rng.random() < 0.25:
+        cfg["maxfail"] = rng.choice([1, 2])
+    steps = [["build", cfg, {}, irrelevant_options(rng)]]
+    if rng.random() < 0.5:
+        steps.append(["build", dict(cfg), {}, irrelevant_options(rng)])
+    return {"tag": "prog", "spec": spec, "steps": steps, "faults": faults, "prog": prog}
+
+
 def gen_case(rng, shape=None):
     spec = engine.gen_spec(rng, nt=(2, 6), after_p=0.2, after_needs_prods=True, behs=("ok",), prodless_p=0.1)
     cfg = {}
@@ -222,7 +265,7 @@ def gen_case(rng, shape=None):
         for t in rng.sample(cands, min(len(cands), rng.randint(1, 2))):
             t["marks"] = sorted(set(t.get("marks", [])) | {"persist"})
             persist.append(t)
-    steps.append(["build", cfg, kw_extra])
+    steps.append(["build", cfg, kw_extra, irrelevant_options(rng)])
     if persist and rng.random() < 0.8:
         produced = {p for t in spec["tasks"] for p in t["prods"]}
         for t in persist:
@@ -236,9 +279,9 @@ def gen_case(rng, shape=None):
                 steps.append(["write", rng.choice(t["prods"]), rng.randint(1000, 9999)])   # a product was edited by hand: PERSISTENCE
             else:
                 steps.append(["delete", rng.choice(t["prods"])])               # a product is gone: the task runs again
-        steps.append(["build", dict(cfg), kw_extra])
+        steps.append(["build", dict(cfg), kw_extra, irrelevant_options(rng)])
     if rng.random() < 0.5:
-        steps.append(["build", dict(cfg), kw_extra])
+        steps.append(["build", dict(cfg), kw_extra, irrelevant_options(rng)])
     return {"tag": shape, "spec": spec, "steps": steps, "faults": faults}
 
 
@@ -285,6 +328,10 @@ def run_case(server, case):
     recs = []
     try:
         project.materialise(root, spec, clock)
+        prog = case.get("prog")
+        if prog and prog["module"].startswith("prog_"):
+            for p in root.glob("task_m*.py"):
+                p.rename(root / p.name.replace("task_", "prog_", 1))     # not a task module: only build(tasks=…) sees the functions
         for step in case["steps"]:
             if step[0] == "delete":
                 project.node_path(root, step[1]).unlink(missing_ok=True)
@@ -298,8 +345,10 @@ def run_case(server, case):
             project.clear_log(root)
             pre = project.snapshot_nodes(root, spec)
             kw = builder.cfg_to_kw(cfg)
+            kw.update(step[3] if len(step) > 3 else {})      # options that must be irrelevant
             kw.update(kw_extra)
-            obs = server.build(root, kw)
+            opts = {"tasks_from": prog} if prog else {}
+            obs = server.build(root, kw, **opts)
             obs["log"] = project.read_log(root)
             post = project.snapshot_nodes(root, spec)
             recs.append({"step": step, "cfg": cfg, "obs": obs, "pre": pre, "post": post, "hashseed": server.hashseed})
@@ -371,6 +420,10 @@ def oracle(case, recs):
             bad.append(("one_report", f"a task has more than one report: {order}", None))
         mf = cfg.get("maxfail")
         stopped = mf is not None and len(failed) >= mf
+        collected = [engine.name_to_id(n) for n in (obs.get("collected") or [])]
+        if not stopped and sorted(collected) != sorted(order):
+            bad.append(("one_report", f"collected tasks {sorted(collected)} but reports for {sorted(order)}: a collected task without report "
+                                      f"(or a report without task)", None))
         if not stopped and set(order) != set(byid):
             bad.append(("one_report", f"not stopped early, but reports {sorted(order)} != collected tasks {sorted(byid)}; log {log}", f29_tag))
         if stopped and failed and order and order[-1] != failed[int(mf) - 1]:
@@ -450,6 +503,8 @@ def model_faults(case, step):
         # what importing the broken module raises; whether that becomes a failed collection report is decided by the model
         # from Generated.collectFileCatches
         imp = IMPORT_EXC[k]
+    if "duplicate_task" in kinds:
+        ph.append("collect:CollectionError")       # two collected tasks with one signature: a failed collection report
     if kinds & {"bad_k", "bad_m", "bad_after"}:
         ph.append("dag:ValueError")
     return conf, ",".join(ph), imp
@@ -528,6 +583,8 @@ def cases(ctx):
     shapes = ["task", "phase", "pair", "clean"]
     for i in range(ctx.scale(110, 1500)):
         cs.append(gen_case(rng, shapes[i % 4] if i < 40 else None))
+    for i in range(ctx.scale(24, 300)):
+        cs.append(gen_prog_case(rng))
     return cs
 
 
@@ -558,6 +615,8 @@ def run_cases(ctx, cs):
                 ctx.dist["raised=" + str(b["obs"]["raised"])] += 1
             for r in b["obs"].get("reports") or []:
                 ctx.dist["outcome=" + r[1]] += 1
+            for k_ in (b["step"][3] if len(b["step"]) > 3 else {}):
+                ctx.dist["irrelevant=" + k_] += 1
             for opt in ("force", "dry", "maxfail", "k"):
                 if b["cfg"].get(opt):
                     ctx.dist["opt=" + opt] += 1
